@@ -2,6 +2,7 @@ package sym
 
 import (
 	"bytes"
+	"sync"
 	"encoding/json"
 	"fmt"
 	"os"
@@ -812,47 +813,66 @@ func (pr *Program) selftest(o Options, hs *HarnessSet, pkgNames map[string]strin
 		return "MISMATCH: " + berr
 	}
 	n, agree := 0, 0
+	type stRes struct {
+		same bool
+		msg  string
+	}
+	var todo []map[string]uint64
 	for _, m := range ms {
 		if schedDependent(m) {
 			continue // the native build cannot be forced into the recorded schedule / map order
 		}
-		c := cfg
-		c.Concrete = m
-		res, viols, _ := pr.RunConcrete(fn, c)
-		nat := runNative(bin, filepath.Join(o.Repo, u.Pkg), u.Entry, m, cfg.Params, tmp)
+		todo = append(todo, m)
+	}
+	results := make([]stRes, len(todo))
+	var wg sync.WaitGroup
+	sem := make(chan struct{}, 8)
+	for i, m := range todo {
+		wg.Add(1)
+		sem <- struct{}{}
+		go func(i int, m map[string]uint64) {
+			defer wg.Done()
+			defer func() { <-sem }()
+			c := cfg
+			c.Concrete = m
+			res, viols, _ := pr.RunConcrete(fn, c)
+			nat := runNative(bin, filepath.Join(o.Repo, u.Pkg), u.Entry, m, cfg.Params, tmp)
+			var ifail []string
+			for _, v := range viols {
+				if v.Kind == "assert" {
+					ifail = append(ifail, v.AssertID)
+				}
+			}
+			sort.Strings(ifail)
+			nf := append([]string{}, nat.failed...)
+			sort.Strings(nf)
+			same := strings.Join(dedupe(ifail), ",") == strings.Join(dedupe(nf), ",")
+			switch res.End {
+			case "ok":
+				same = same && nat.stopped == "" && nat.panicked == ""
+				if same {
+					same = strings.Join(res.Observations, "\n") == strings.Join(nat.obs, "\n")
+				}
+			case "panic":
+				same = same && nat.panicked != ""
+			case "assume":
+				same = same && nat.stopped == "VERIF-ASSUME-FAIL"
+			case "cut":
+				same = same && (nat.stopped == "VERIF-CUT" || nat.stopped == "")
+			case "stop":
+			default:
+				same = false
+			}
+			results[i] = stRes{same, fmt.Sprintf("selftest mismatch on %s: interp end=%s fail=%v obs=%v | native fail=%v stopped=%q panicked=%q obs=%v model=%s", u.Entry, res.End, ifail, res.Observations, nat.failed, nat.stopped, nat.panicked, nat.obs, modelString(m))}
+		}(i, m)
+	}
+	wg.Wait()
+	for _, r := range results {
 		n++
-		// compare: end kind and failed assertion ids and observations
-		var ifail []string
-		for _, v := range viols {
-			if v.Kind == "assert" {
-				ifail = append(ifail, v.AssertID)
-			}
-		}
-		sort.Strings(ifail)
-		nf := append([]string{}, nat.failed...)
-		sort.Strings(nf)
-		same := strings.Join(dedupe(ifail), ",") == strings.Join(dedupe(nf), ",")
-		switch res.End {
-		case "ok":
-			same = same && nat.stopped == "" && nat.panicked == ""
-			if same {
-				same = strings.Join(res.Observations, "\n") == strings.Join(nat.obs, "\n")
-			}
-		case "panic":
-			same = same && nat.panicked != ""
-		case "assume":
-			same = same && nat.stopped == "VERIF-ASSUME-FAIL"
-		case "cut":
-			same = same && (nat.stopped == "VERIF-CUT" || nat.stopped == "")
-		case "stop":
-			// assertion failed and path ended in the interpreter; natively execution continues
-		default:
-			same = false
-		}
-		if same {
+		if r.same {
 			agree++
 		} else if o.Verbose {
-			fmt.Printf("selftest mismatch on %s: interp end=%s fail=%v obs=%v | native fail=%v stopped=%q panicked=%q obs=%v model=%s\n", u.Entry, res.End, ifail, res.Observations, nat.failed, nat.stopped, nat.panicked, nat.obs, modelString(m))
+			fmt.Println(r.msg)
 		}
 	}
 	if n == 0 {
@@ -890,7 +910,11 @@ func crossCheck(dumps []string, tier string) string {
 	}
 	defer os.RemoveAll(tmp)
 	solvers := [][]string{{"z3", "-smt2", "-T:60"}, {"cvc5", "--lang=smt2", "--tlimit=60000"}}
+	var mu sync.Mutex
 	counts := map[string]int{}
+	disagree := ""
+	var wg sync.WaitGroup
+	sem := make(chan struct{}, 12)
 	for i, d := range dumps {
 		f := filepath.Join(tmp, fmt.Sprintf("q%d.smt2", i))
 		os.WriteFile(f, []byte("(set-logic ALL)\n"+d), 0o644)
@@ -899,17 +923,29 @@ func crossCheck(dumps []string, tier string) string {
 				counts[s[0]+":missing"]++
 				continue
 			}
-			out, _ := exec.Command(s[0], append(s[1:], f)...).CombinedOutput()
-			ans := strings.TrimSpace(string(out))
-			switch {
-			case strings.HasPrefix(ans, "unsat"):
-				counts[s[0]+":unsat"]++
-			case strings.HasPrefix(ans, "sat"):
-				return fmt.Sprintf("DISAGREE: %s answers sat on an obligation z3 discharged (query %d)", s[0], i)
-			default:
-				counts[s[0]+":other"]++
-			}
+			wg.Add(1)
+			sem <- struct{}{}
+			go func(i int, s []string, f string) {
+				defer wg.Done()
+				defer func() { <-sem }()
+				out, _ := exec.Command(s[0], append(s[1:], f)...).CombinedOutput()
+				ans := strings.TrimSpace(string(out))
+				mu.Lock()
+				defer mu.Unlock()
+				switch {
+				case strings.HasPrefix(ans, "unsat"):
+					counts[s[0]+":unsat"]++
+				case strings.HasPrefix(ans, "sat"):
+					disagree = fmt.Sprintf("DISAGREE: %s answers sat on an obligation the deciding solver discharged (query %d)", s[0], i)
+				default:
+					counts[s[0]+":other"]++
+				}
+			}(i, s, f)
 		}
+	}
+	wg.Wait()
+	if disagree != "" {
+		return disagree
 	}
 	var parts []string
 	for k, v := range counts {
